@@ -80,40 +80,33 @@ theorem keepPair_eq (names : List Bytes) (p : Bytes) : keepPair names p = !Spec.
   unfold keepPair Spec.named pairKey
   cases queryUnescape (before '=' p) <;> rfl
 
-/-- what `RemoveFrom` leaves: the pieces of the query as written, in order, without those carrying a listed name -/
-theorem queryPairs_removeParams (names : List Bytes) (q : Bytes) :
-    Spec.queryPairs (removeParams names q) = (Spec.queryPairs q).filter (fun p => !Spec.named names p) := by
+/-- what `RemoveFrom` leaves: exactly the pieces of the query — as written, in order, empty ones included — that do not
+carry a listed name; nothing at all if none is left -/
+theorem splitOn_removeParams (names : List Bytes) (q : Bytes) :
+    if (splitOn '&' q).filter (fun p => !Spec.named names p) = [] then removeParams names q = []
+    else splitOn '&' (removeParams names q) = (splitOn '&' q).filter (fun p => !Spec.named names p) := by
+  have hfe : (fun p => !Spec.named names p) = keepPair names := by funext p; rw [keepPair_eq]
+  rw [hfe]
   unfold removeParams
   by_cases h0 : (q = [] || names = []) = true
   · simp only [h0, if_true]
     simp only [Bool.or_eq_true, decide_eq_true_eq] at h0
     rcases h0 with h | h
-    · subst h; rfl
     · subst h
-      symm
-      rw [List.filter_eq_self]
-      intro p _
-      simp [Spec.named]
-      cases queryUnescape (before '=' p) <;> simp
+      by_cases hk : keepPair names [] = true <;> simp [splitOn, hk]
+    · subst h
+      have hall : (splitOn '&' q).filter (keepPair []) = splitOn '&' q := by
+        rw [List.filter_eq_self]
+        intro p _
+        unfold keepPair
+        cases pairKey p <;> simp
+      rw [hall]
+      simp [splitOn_ne_nil]
   · simp only [h0, Bool.false_eq_true, if_false]
-    have hfe : (fun p => !Spec.named names p) = keepPair names := by funext p; rw [keepPair_eq]
-    rw [hfe]
-    unfold Spec.queryPairs
     by_cases hl : (splitOn '&' q).filter (keepPair names) = []
-    · rw [hl]
-      rw [List.filter_filter]
-      have : (splitOn '&' q).filter (fun a => keepPair names a && decide (a ≠ [])) = [] := by
-        rw [List.filter_eq_nil_iff] at hl ⊢
-        intro a ha
-        have := hl a ha
-        simp [this]
-      rw [this]
-      rfl
-    · rw [splitOn_joinWith '&' _ hl (fun p hp => splitOn_no_sep '&' q p ((List.mem_filter.mp hp).1))]
-      rw [List.filter_filter, List.filter_filter]
-      apply List.filter_congr
-      intro a _
-      exact Bool.and_comm _ _
+    · simp [hl, joinWith]
+    · simp only [hl, if_false]
+      exact splitOn_joinWith '&' _ hl (fun p hp => splitOn_no_sep '&' q p (List.mem_filter.mp hp).1)
 
 theorem filterMap_filter_comm {α β} (f : α → Option β) (keep : α → Bool) (g : β → Bool) (l : List α)
     (h : ∀ a b, f a = some b → keep a = g b) :
